@@ -183,14 +183,6 @@ Proof.
   - intros i Hi. apply dupfree_lt; auto.
 Qed.
 
-(* the position found for a key is unique on a duplicate-free domain *)
-Lemma dupfree_index_unique : forall dom k i j, dupfreeb dom = true -> index_of k dom = Some i ->
-  j < length dom -> pyeq (nth j dom PNone) k = true -> (forall a b c, pyeq a b = true -> pyeq b c = true -> pyeq a c = true) -> i = j.
-Proof.
-  intros dom k i j H Hi Hj E T. destruct (index_of_Some _ _ _ Hi) as [Li Ei].
-  apply (dupfree_inj dom); auto. apply (T _ k); auto. rewrite pyeq_sym. assumption.
-Qed.
-
 (* ============================================================================================ *)
 (*  Tables                                                                                       *)
 (* ============================================================================================ *)
@@ -570,6 +562,34 @@ Proof.
   rewrite H. destruct Hs; subst; simpl; auto.
 Qed.
 
+Lemma iif_slices : forall m fs cs, m <= length fs -> Forall (fun f => plain_dom (fdom f)) fs ->
+  iif (repeat (PSlice true) m) fs cs = Ok (repeat ASlice m).
+Proof.
+  induction m; intros fs cs Hm F; simpl; [reflexivity|].
+  destruct fs as [|f fs]; [simpl in Hm; lia|]. inversion F; subst.
+  rewrite index_of_pin, (plain_index_of_special _ (PSlice true) H1) by reflexivity. simpl.
+  rewrite IHm; auto. simpl in Hm; lia.
+Qed.
+
+(* t[:, :, ...] with at most one full slice per field is the table itself *)
+Theorem slice_tuple_identity_thm : forall t m, m <= length (tix t) ->
+  Forall (fun f => plain_dom (fdom f)) (tix t) ->
+  not_outer_element t (PTuple (repeat (PSlice true) m)) ->
+  getitem t (PTuple (repeat (PSlice true) m)) = Ok GSelf.
+Proof.
+  intros t m Hm F Hno. unfold getitem, getitem_raw, array_index.
+  destruct (dom_index (PTuple (repeat (PSlice true) m)) (dom0 (tix t))) eqn:E; [exfalso; apply (Hno a); assumption|].
+  assert (Hne : existsb is_ellipsis (repeat (PSlice true) m) = false) by (clear; induction m; simpl; auto).
+  assert (Hall : forallb is_aslice (repeat ASlice m) = true) by (clear; induction m; simpl; auto).
+  assert (Hlt : Nat.ltb (length (tix t)) m = false) by (apply Nat.ltb_ge; lia).
+  destruct m as [|[|m]].
+  - simpl. reflexivity.
+  - simpl. reflexivity.
+  - change (one_special (repeat (PSlice true) (S (S m)))) with (@None bool). cbv iota.
+    unfold index_into_fields, pad_out. rewrite Hne, repeat_length, Hlt, iif_slices; auto.
+    unfold updated_index. rewrite Hall. reflexivity.
+Qed.
+
 (* ---- rows of probability tables ----------------------------------------------------------------- *)
 (* what "the result is the distribution of the row at positions ps" means *)
 Definition is_row_dist (t : table) (r : res gres) (ps : list nat) (f : field) : Prop :=
@@ -780,13 +800,11 @@ Example ex_foreign : getitem (ex_t CTable) (PInt 9) = Err EKey /\ getitem (ex_t 
   /\ getitem (ex_t CStateAction) (PTuple [PNone; PInt 9]) = Err EStateAction
   /\ table_get (ex_t CTable) (PTuple [PNone; PInt 9]) = Err EIndex.
 Proof.
-  repeat split.
+  split; [|split; [|split]].
   - apply (foreign_scalar_raises_thm (ex_t CTable) (PInt 9)); reflexivity.
   - apply (foreign_scalar_raises_thm (ex_t CStateAction) (PInt 9)); reflexivity.
-  - apply (foreign_tuple_raises_thm (ex_t CStateAction) [PNone] [2] (PInt 9) []); auto using ex_wf.
-    + simpl; auto.
-    + intros i; vm_compute; discriminate.
-  - apply (foreign_tuple_raises_thm (ex_t CTable) [PNone] [2] (PInt 9) []); auto using ex_wf.
-    + simpl; auto.
-    + intros i; vm_compute; discriminate.
+  - apply (foreign_tuple_raises_thm (ex_t CStateAction) [PNone] [2] (PInt 9) []); auto using ex_wf;
+      try (simpl; tauto); intros i; vm_compute; discriminate.
+  - apply (foreign_tuple_raises_thm (ex_t CTable) [PNone] [2] (PInt 9) []); auto using ex_wf;
+      try (simpl; tauto); intros i; vm_compute; discriminate.
 Qed.
